@@ -1,21 +1,47 @@
+//! Dev tool: `mirdump <file.sam> [pass...]` prints the MIR of module Main after lowering and after
+//! the given single passes (ccp, loop, cse, lvn, dce, inline), with the mirsem outcome of each stage.
 use samlang_heap::Heap;
-use samlang_optimization::verif_hooks as oh;
 use std::collections::HashMap;
+use samlang_optimization::verif_hooks as oh;
 use vcore::{exec, mir_pipeline, mirsem};
 fn main() {
   vcore::run::install_quiet_panic_hook();
   let text = std::fs::read_to_string(std::env::args().nth(1).unwrap()).unwrap();
+  let passes: Vec<String> = std::env::args().skip(2).collect();
   let mut heap = Heap::new();
   let entry = exec::module_ref(&mut heap, "Main");
   let checked = mir_pipeline::check(&mut heap, HashMap::from([(entry, text)])).unwrap();
   let mut m = mir_pipeline::lower(&mut heap, &checked);
-  let fs = std::mem::take(&mut m.functions);
-  m.functions = oh::inlining(fs, &mut heap);
-  let idx = mirsem::find_main_index(&heap, &m, entry).unwrap();
-  let out = mirsem::run_main(&heap, &m, idx, &mirsem::Config { fuel: 1_000_000, max_call_depth: 1000 });
-  println!("{:?} {:?}", out.ending, out.lines);
-  for f in &m.functions {
-    let s = f.debug_print(&heap, &m.symbol_table);
-    if s.contains("Main$main") { println!("{s}"); }
+  let show = |heap: &Heap, m: &samlang_ast::mir::Sources, tag: &str| {
+    let idx = mirsem::find_main_index(heap, m, entry).unwrap();
+    let out = mirsem::run_main(heap, m, idx, &mirsem::Config { fuel: 1_000_000, max_call_depth: 1000 });
+    println!("==== {tag}: {:?} {:?}", out.ending, out.lines);
+    for f in &m.functions {
+      let s = f.debug_print(heap, &m.symbol_table);
+      if s.contains("_Main_Main$") {
+        println!("{s}");
+      }
+    }
+  };
+  show(&heap, &m, "lowered");
+  for p in passes {
+    if p == "inline" {
+      let fs = std::mem::take(&mut m.functions);
+      m.functions = oh::inlining(fs, &mut heap);
+    } else {
+      let counter = heap.create_temp_counter();
+      for f in &mut m.functions {
+        match p.as_str() {
+          "ccp" => oh::conditional_constant_propagation(f),
+          "loop" => oh::loop_optimizations(f, &counter),
+          "cse" => oh::common_subexpression_elimination(f, &counter),
+          "lvn" => oh::local_value_numbering(f),
+          "dce" => oh::dead_code_elimination(f),
+          _ => panic!("unknown pass {p}"),
+        }
+      }
+      heap.sync_temp_counter(&counter);
+    }
+    show(&heap, &m, &format!("after {p}"));
   }
 }
